@@ -1,6 +1,8 @@
 import InToto.Driver.Util
 import InToto.Driver.Rules
 import InToto.Driver.Meta
+import InToto.Driver.Subst
+import InToto.Driver.Misc
 import InToto.Model.Glob
 import InToto.Spec.Glob
 
@@ -32,6 +34,12 @@ def handle (j : Json) : Json :=
   | some r => r
   | none =>
   match handleMeta op a with
+  | some r => r
+  | none =>
+  match handleSubst op a with
+  | some r => r
+  | none =>
+  match handleMisc op a with
   | some r => r
   | none => Json.mkObj [("error", Json.str ("unknown op " ++ op))]
 
